@@ -162,6 +162,13 @@ def cases(tier, seed):
             recs.append((['named', 'er_strong', n, .2, int(rs.randint(1 << 30))], True))
     for i, (g, d) in enumerate(recs):
         out.append({'g': g, 'directed': d, 'ws': seed * 100 + i, 'perms': 40 if thorough else 8})
+    # a few hundred nodes with hubs of 260-290 partly reciprocated neighbours (neighbour positions beyond any small-integer
+    # cache, neighbour lists longer than any block), cheap node-level measures only
+    for d in (True, False):
+        out.append({'g': ['named', 'hub_graph', 300, 3, seed], 'directed': d, 'ws': seed, 'perms': 2, 'symmetrize': not d,
+                    'only': ['flow_coef_bd', 'degrees_dir', 'degrees_und', 'strengths_dir', 'strengths_und', 'clustering_coef_bd', 'clustering_coef_bu',
+                             'clustering_coef_wd', 'clustering_coef_wu', 'transitivity_bd', 'transitivity_bu', 'density_dir', 'density_und',
+                             'edge_nei_overlap_bd', 'edge_nei_overlap_bu', 'jdegree', 'matching_ind', 'matching_ind_und']})
     return out
 
 
@@ -237,6 +244,8 @@ def as_tuple(r, kinds):
 def run(case, bct, REC):
     A = G.build(case['g'])
     directed = case['directed']
+    if case.get('symmetrize'):
+        A = ((A + A.T) > 0).astype(float)
     n = len(A)
     dom = inputs_for(A, directed, case['ws'])
     if case['perms'] == 'all':
@@ -252,6 +261,8 @@ def run(case, bct, REC):
     ci = (np.arange(n) * 7 % 3) + 1
     for m in MEASURES:
         if m['dom'] not in dom:
+            continue
+        if case.get('only') and m['name'] not in case['only']:
             continue
         # a directed-domain measure on a symmetric matrix from an undirected case: keep, it is in its domain
         X = dom[m['dom']]
